@@ -50,6 +50,15 @@ func Cleanup() {
 	tlsLock.Unlock()
 }
 
+// Initialized returns true if a local storage exists for the current go routine
+func Initialized() bool {
+	gid := getg()
+	tlsLock.RLock()
+	_, ok := tls[gid]
+	tlsLock.RUnlock()
+	return ok
+}
+
 // Get returns a variable from the local storage of the current go routine
 func Get(key string) (interface{}, bool) {
 	gid := getg()
